@@ -421,3 +421,251 @@ Proof.
   - intros (Hk & Hfail). split; [lia |]. intros i Hi. apply Hfail. lia.
   - intros (Hk & Hfail). split; [lia |]. intros i Hi. apply Hfail. lia.
 Qed.
+
+(* ================================================================ 6. Poisson disk sampling at R *)
+Section ListFacts2.
+  Context {A : Type}.
+
+  Lemma FOP_perm (R : A -> A -> Prop) (l l' : list A) :
+    (forall x y, R x y -> R y x) -> Permutation l l' -> ForallOrdPairs R l -> ForallOrdPairs R l'.
+  Proof.
+    intros Hsym P. induction P as [| x l l' P IH | x y l | l l' l'' P1 IH1 P2 IH2]; intros H.
+    - exact H.
+    - inversion H as [| a r Hx Hr]; subst. constructor.
+      + apply (Permutation_Forall P). exact Hx.
+      + apply IH. exact Hr.
+    - inversion H as [| a r Hy Hr]; subst.
+      inversion Hr as [| a' r' Hx Hl]; subst.
+      inversion Hy as [| b r'' Hyx Hyl]; subst.
+      constructor; [constructor; [apply Hsym; exact Hyx | exact Hx] |].
+      constructor; [exact Hyl | exact Hl].
+    - apply IH2. apply IH1. exact H.
+  Qed.
+
+  Lemma concat_upd_cons (st : list (list A)) (n : nat) (o : A) :
+    (n < length st)%nat -> Permutation (concat (upd st n (fun c => o :: c))) (o :: concat st).
+  Proof.
+    revert n. induction st as [| a r IH]; intros n Hn; cbn [length] in Hn; [lia |].
+    destruct n as [| k]; cbn [upd concat].
+    - cbn [app]. apply Permutation_refl.
+    - apply Permutation_trans with (a ++ o :: concat r).
+      + apply Permutation_app_head. apply IH. lia.
+      + apply Permutation_sym. apply Permutation_middle.
+  Qed.
+
+  Lemma in_concat_nth (st : list (list A)) (o : A) :
+    In o (concat st) -> exists k, In o (nth k st []).
+  Proof.
+    induction st as [| a r IH]; cbn [concat]; [intros [] |].
+    intros H. apply in_app_iff in H. destruct H as [H | H].
+    - exists 0%nat. exact H.
+    - destruct (IH H) as (k & Hk). exists (S k). exact Hk.
+  Qed.
+
+  Lemma nth_in_concat (st : list (list A)) (k : nat) (o : A) :
+    In o (nth k st []) -> In o (concat st).
+  Proof.
+    revert k. induction st as [| a r IH]; intros k H.
+    - destruct k; destruct H.
+    - cbn [concat]. apply in_app_iff. destruct k as [| k]; cbn [nth] in H; [left; exact H | right].
+      apply (IH k). exact H.
+  Qed.
+
+  Lemma concat_repeat_nil (n : nat) : concat (repeat (@nil A) n) = [].
+  Proof. induction n as [| n IH]; [reflexivity |]. cbn [repeat concat app]. exact IH. Qed.
+End ListFacts2.
+
+Section PoissonR.
+  Local Open Scope R_scope.
+  Notation opR := (opoint (T:=R)).
+  Notation storeR := (store (A:=opR)).
+
+  Definition ip_points (st : storeR) : list opR := concat st.
+  Definition ip_spaced (l2 : R) (l : list opR) : Prop :=
+    ForallOrdPairs (fun p q => l2 <= sqd NumR (op_pos p) (op_pos q)) l.
+  Definition ip_stored (g : dims (T:=R)) (st : storeR) : Prop :=
+    forall k o, In o (nth k st []) ->
+      in_range g (idx3 NumR Zfloor g (op_pos o)) = true /\ k = Z.to_nat (flat g (idx3 NumR Zfloor g (op_pos o))).
+
+  Lemma sqd_sym (p q : R * R * R) : sqd NumR p q = sqd NumR q p.
+  Proof.
+    destruct p as [[px py] pz], q as [[qx qy] qz]. unfold sqd. cbn [NumR nsub nadd nmul]. ring.
+  Qed.
+
+  Lemma sq_lt_abs (a l : R) : 0 < l -> a * a < l * l -> Rabs a <= l.
+  Proof.
+    intros Hl H. apply Rabs_le. split.
+    - destruct (Rle_lt_dec (- l) a) as [Hle | Hlt]; [exact Hle | exfalso].
+      assert (H1 : l * l < (- a) * (- a)) by (apply Rmult_le_0_lt_compat; lra).
+      replace ((- a) * (- a)) with (a * a) in H1 by ring. lra.
+    - destruct (Rle_lt_dec a l) as [Hle | Hlt]; [exact Hle | exfalso].
+      assert (H1 : l * l < a * a) by (apply Rmult_le_0_lt_compat; lra).
+      lra.
+  Qed.
+
+  Lemma sqd_close (p q : R * R * R) (l : R) :
+    0 < l -> sqd NumR q p < l * l ->
+    (let '(px, py, pz) := p in let '(qx, qy, qz) := q in
+     Rabs (px - qx) <= l /\ Rabs (py - qy) <= l /\ Rabs (pz - qz) <= l).
+  Proof.
+    destruct p as [[px py] pz], q as [[qx qy] qz]. unfold sqd. cbn [NumR nsub nadd nmul].
+    intros Hl H.
+    pose proof (Rle_0_sqr (qx - px)) as Hx. pose proof (Rle_0_sqr (qy - py)) as Hy.
+    pose proof (Rle_0_sqr (qz - pz)) as Hz. unfold Rsqr in Hx, Hy, Hz.
+    repeat split; rewrite Rabs_minus_sym; apply sq_lt_abs; try exact Hl; lra.
+  Qed.
+
+  Lemma accept_true_all (l2 : R) (c : R * R * R) (nbrs : list opR) :
+    forall k, accept NumR l2 c nbrs k = true -> forall q, In q nbrs -> l2 <= sqd NumR (op_pos q) c.
+  Proof.
+    induction nbrs as [| a r IH]; intros k H q Hq; [destruct Hq |].
+    cbn [accept] in H.
+    destruct (nltb NumR (sqd NumR (op_pos a) c) l2 || Nat.leb 30 k) eqn:E; [discriminate |].
+    apply orb_false_iff in E. destruct E as [E _]. cbn [NumR nltb] in E. apply Rltb_false in E.
+    destruct Hq as [Hq | Hq]; [subst q; exact E | exact (IH _ H q Hq)].
+  Qed.
+
+  Lemma try_cands_cases (g : dims (T:=R)) (l2 : R) (st : storeR) (nbrs cands : list opR) :
+    forall (k : nat) (st' : storeR),
+    try_cands NumR Zfloor g l2 st nbrs cands k = Some st' ->
+    st' = st \/ exists c, In c cands /\ accept NumR l2 (op_pos c) nbrs 0 = true /\
+                          place NumR Zfloor g st (op_pos c) c = Some st'.
+  Proof.
+    induction cands as [| c r IH]; intros k st' H.
+    - cbn [try_cands] in H. left. inversion H. reflexivity.
+    - destruct k as [| k']; cbn [try_cands] in H; [left; inversion H; reflexivity |].
+      destruct (accept NumR l2 (op_pos c) nbrs 0) eqn:Ea.
+      + right. exists c. split; [left; reflexivity | split; [exact Ea | exact H]].
+      + destruct (IH k' st' H) as [Hs | (c' & Hc' & Hacc & Hpl)]; [left; exact Hs | right].
+        exists c'. split; [right; exact Hc' | split; [exact Hacc | exact Hpl]].
+  Qed.
+
+  Section Run.
+    Variables (eps lmin : R) (lo hi : R * R * R) (st1 : storeR).
+    Hypotheses (Heps : 0 <= eps) (Hlmin : 0 < lmin) (Hbox : gp_box_ok lo hi).
+    Notation g := (update_dimensions NumR Zceil eps lmin lo hi).
+    Hypothesis Hst1_box : forall o, In o (ip_points st1) -> gp_in_box lo hi (op_pos o).
+    Hypothesis Hst1_stored : ip_stored g st1.
+
+    Definition ip_inv (st : storeR) : Prop :=
+      length st = Z.to_nat (nvox g) /\ ip_stored g st /\ ip_spaced (lmin * lmin) (ip_points st) /\
+      (forall o, In o (ip_points st) -> gp_in_box lo hi (op_pos o)).
+
+    Lemma poisson_step (st st' : storeR) (v : Z * Z * Z) :
+      ip_inv st -> in_range g v = true ->
+      try_cands NumR Zfloor g (lmin * lmin) st (neighborhood_idx g st v) (content st1 (flat g v)) 30 = Some st' ->
+      ip_inv st'.
+    Proof.
+      intros (Hlen & Hsto & Hsp & Hinb) Hv Htc.
+      destruct (try_cands_cases _ _ _ _ _ _ _ Htc) as [Hs | (c & Hc & Hacc & Hpl)].
+      { subst st'. split; [exact Hlen | split; [exact Hsto | split; [exact Hsp | exact Hinb]]]. }
+      (* the candidate lies in the voxel being processed *)
+      unfold content in Hc.
+      destruct (Hst1_stored _ _ Hc) as (Hcr & Hck).
+      pose proof (flat_bounds g v Hv) as Hbv. pose proof (flat_bounds g _ Hcr) as Hbc.
+      assert (Hvc : v = idx3 NumR Zfloor g (op_pos c)).
+      { apply (flat_inj g); [exact Hv | exact Hcr | lia]. }
+      assert (Hc_box : gp_in_box lo hi (op_pos c)).
+      { apply Hst1_box. unfold ip_points. eapply nth_in_concat. exact Hc. }
+      (* every stored point is far from the candidate *)
+      assert (Hfar : forall q, In q (ip_points st) -> lmin * lmin <= sqd NumR (op_pos c) (op_pos q)).
+      { intros q Hq.
+        destruct (Rle_lt_dec (lmin * lmin) (sqd NumR (op_pos c) (op_pos q))) as [Hle | Hlt]; [exact Hle | exfalso].
+        rewrite sqd_sym in Hlt.
+        pose proof (sqd_close (op_pos c) (op_pos q) lmin Hlmin Hlt) as Hclose.
+        destruct (in_concat_nth _ _ Hq) as (k & Hk).
+        destruct (Hsto _ _ Hk) as (Hqr & Hqk).
+        assert (Hqc : In q (content st (flat g (idx3 NumR Zfloor g (op_pos q))))).
+        { unfold content. rewrite <- Hqk. exact Hk. }
+        pose proof (nbh_complete opR eps lmin lo hi (op_pos c) (op_pos q) st q Heps Hlmin Hbox Hc_box
+                      (Hinb q Hq) Hclose) as Hn.
+        cbv zeta in Hn. specialize (Hn Hqc). unfold neighborhood in Hn. rewrite <- Hvc in Hn.
+        pose proof (accept_true_all _ _ _ _ Hacc q Hn) as Hge. lra. }
+      (* the placement *)
+      pose proof Hpl as Hpl'. unfold place in Hpl'. rewrite Hcr in Hpl'. inversion Hpl' as [Hst']. clear Hpl'.
+      set (n := Z.to_nat (flat g (idx3 NumR Zfloor g (op_pos c)))) in *.
+      assert (Hn : (n < length st)%nat) by (unfold n; rewrite Hlen; lia).
+      unfold place_id. fold n.
+      assert (Hperm : Permutation (ip_points (upd st n (fun l => c :: l))) (c :: ip_points st)).
+      { unfold ip_points. apply concat_upd_cons. exact Hn. }
+      split; [| split; [| split]].
+      - rewrite upd_length. exact Hlen.
+      - intros k o Ho. destruct (Nat.eq_dec k n) as [Hkn | Hkn].
+        + subst k. rewrite nth_upd_same in Ho by exact Hn. destruct Ho as [Ho | Ho].
+          * subst o. split; [exact Hcr | reflexivity].
+          * apply Hsto. exact Ho.
+        + rewrite nth_upd_other in Ho by (intros E; apply Hkn; symmetry; exact E).
+          apply Hsto. exact Ho.
+      - unfold ip_spaced. eapply FOP_perm; [| apply Permutation_sym; exact Hperm |].
+        + intros x y Hxy. rewrite sqd_sym. exact Hxy.
+        + constructor; [| exact Hsp]. apply Forall_forall. exact Hfar.
+      - intros o Ho. apply (Permutation_in _ Hperm) in Ho. destruct Ho as [Ho | Ho].
+        + subst o. exact Hc_box.
+        + apply Hinb. exact Ho.
+    Qed.
+
+    Lemma poisson_fold (l : list (Z * Z * Z)) : forall (st st' : storeR),
+      (forall v, In v l -> in_range g v = true) -> ip_inv st ->
+      fold_left (fun acc v => match acc with
+                              | None => None
+                              | Some s2 => try_cands NumR Zfloor g (lmin * lmin) s2 (neighborhood_idx g s2 v)
+                                             (content st1 (flat g v)) 30
+                              end) l (Some st) = Some st' ->
+      ip_inv st'.
+    Proof.
+      induction l as [| v r IH]; intros st st' Hl Hinv H; cbn [fold_left] in H.
+      - inversion H. subst st'. exact Hinv.
+      - destruct (try_cands NumR Zfloor g (lmin * lmin) st (neighborhood_idx g st v) (content st1 (flat g v)) 30)
+          as [s2 |] eqn:Et.
+        + apply (IH s2 st'); [intros w Hw; apply Hl; right; exact Hw | | exact H].
+          apply (poisson_step st s2 v Hinv); [apply Hl; left; reflexivity | exact Et].
+        + exfalso. clear -H. induction r as [| w r IHr]; cbn [fold_left] in H; [discriminate | exact (IHr H)].
+    Qed.
+
+    Lemma poisson_inv (st2 st2' : storeR) :
+      ip_inv st2 -> poisson NumR Zfloor g (lmin * lmin) st1 st2 = Some st2' -> ip_inv st2'.
+    Proof.
+      intros Hinv H. unfold poisson in H.
+      apply (poisson_fold (all_voxels g) st2 st2'); [| exact Hinv | exact H].
+      intros v Hv. apply in_all_voxels. exact Hv.
+    Qed.
+  End Run.
+
+  Lemma poisson_spacing :
+    forall (eps lmin : R) (lo hi : R * R * R) (st1 st2 st2' : storeR),
+    0 <= eps -> 0 < lmin -> gp_box_ok lo hi ->
+    let g := update_dimensions NumR Zceil eps lmin lo hi in
+    (forall o, In o (ip_points st1) -> gp_in_box lo hi (op_pos o)) ->
+    (forall o, In o (ip_points st2) -> gp_in_box lo hi (op_pos o)) ->
+    ip_stored g st1 ->
+    length st2 = Z.to_nat (nvox g) ->
+    ip_stored g st2 -> ip_spaced (lmin * lmin) (ip_points st2) ->
+    poisson NumR Zfloor g (lmin * lmin) st1 st2 = Some st2' ->
+    ip_spaced (lmin * lmin) (ip_points st2') /\ ip_stored g st2'.
+  Proof.
+    intros eps lmin lo hi st1 st2 st2' Heps Hlmin Hbox g Hb1 Hb2 Hs1 Hlen Hs2 Hsp H.
+    destruct (poisson_inv eps lmin lo hi st1 Heps Hlmin Hbox Hb1 Hs1 st2 st2') as (_ & Hsto & Hspaced & _).
+    - split; [exact Hlen | split; [exact Hs2 | split; [exact Hsp | exact Hb2]]].
+    - exact H.
+    - split; [exact Hspaced | exact Hsto].
+  Qed.
+
+  Lemma poisson_spacing_empty :
+    forall (eps lmin : R) (lo hi : R * R * R) (st1 st2' : storeR),
+    0 <= eps -> 0 < lmin -> gp_box_ok lo hi ->
+    let g := update_dimensions NumR Zceil eps lmin lo hi in
+    (forall o, In o (ip_points st1) -> gp_in_box lo hi (op_pos o)) ->
+    ip_stored g st1 ->
+    poisson NumR Zfloor g (lmin * lmin) st1 (empty_store g) = Some st2' ->
+    ip_spaced (lmin * lmin) (ip_points st2').
+  Proof.
+    intros eps lmin lo hi st1 st2' Heps Hlmin Hbox g Hb1 Hs1 H.
+    assert (Hpts : ip_points (empty_store (A:=opR) g) = []).
+    { unfold ip_points, empty_store. apply concat_repeat_nil. }
+    apply (poisson_spacing eps lmin lo hi st1 (empty_store g) st2' Heps Hlmin Hbox Hb1); try exact Hs1; try exact H.
+    - rewrite Hpts. intros o [].
+    - unfold empty_store. apply repeat_length.
+    - intros k o Ho. unfold empty_store in Ho. rewrite nth_repeat_default in Ho. destruct Ho.
+    - rewrite Hpts. constructor.
+  Qed.
+End PoissonR.
